@@ -47,7 +47,7 @@ Lemma beam_eta s :
 Proof. destruct s. reflexivity. Qed.
 
 Lemma set_theta_external_nf snell_inv s e :
-  set_theta_external_gen snell_inv s e = set_angles_gen s (b_phi s) (snell_inv s (Rabs e)).
+  set_theta_external_gen snell_inv s e = set_angles_gen s (b_phi s) (snell_inv s e).
 Proof. unfold set_theta_external_gen, set_angles_gen. rewrite beam_eta. reflexivity. Qed.
 
 Lemma pump_from_beam_nf s :
